@@ -16,7 +16,8 @@ ENV_THEOREMS = ["env_documented", "release_tags_exact", "build_tags_exact", "too
 
 VOCAB = ["js", "ecmascript", "wasm", "gc", "gccgo", "gopherjs", "netgo", "purego", "math_big_pure_go", "cgo", "linux", "unix",
          "windows", "amd64", "go1.1", "go1.19", "go1.20", "go1.21", "go1.23", "go1.99", "ignore", "foo", "bar", "darwin",
-         "android", "solaris", "race", "boringcrypto", "goexperiment.boringcrypto", "osusergo", "gopherjs2"]
+         "android", "solaris", "race", "boringcrypto", "goexperiment.boringcrypto", "osusergo", "gopherjs2",
+         "go1.2", "go1.3", "go1.5", "go1.9", "go1.10", "go1.12", "go1.18", "go1.22", "go1.100", "go1.01", "go2.0", "go1"]
 ALWAYS = ["js", "ecmascript", "gc", "netgo", "purego", "math_big_pure_go", "gopherjs", "wasm", "go1.20", "go1.21", "cgo"]
 # adversarial user tags: look-alikes of the always-on tags (prefix/suffix/substring/case), duplicates of them
 LOOKALIKE = sorted({f(t) for t in ALWAYS for f in (lambda t: t + "_debug", lambda t: "no" + t, lambda t: "my_" + t + "_impl", lambda t: t + "2",
